@@ -34,11 +34,15 @@ def die(msg):
 
 
 class Lower:
-    def __init__(self, fname, param, prebound=()):
+    def __init__(self, fname, param, prebound=(), param_ptr='PNode', helpers=None):
         self.fname = fname
         self.param = param          # name of the T& parameter, or None
+        self.param_ptr = param_ptr  # the pointer expression designating that object (PNode for the function's own parameter)
         self.locals = set(prebound)
+        self.bools = set()          # locals declared `const bool`
         self.declared = {}
+        self.helpers = helpers or {}   # name -> (parameter name, body AST) of `static void name(T& p)` members, inlined at calls
+        self.depth = 0
 
     def bad(self, what, node):
         raise mc.Unsupported('%s: %s: %s' % (self.fname, what, mc.show(node)))
@@ -54,14 +58,14 @@ class Lower:
                 return '(PVar "%s")' % e[1]
             self.bad('unknown name in a pointer expression', e)
         if k == 'un' and e[1] == '&' and e[2] == ('id', self.param):
-            return 'PNode'
+            return self.param_ptr
         if k == 'member':
             base, name, arrow = e[1], e[2], e[3]
             if name not in FLD:
                 self.bad('unknown field', e)
             if not arrow:
                 if base == ('id', self.param):
-                    return '(PFld PNode %s)' % FLD[name]
+                    return '(PFld %s %s)' % (self.param_ptr, FLD[name])
                 self.bad('member access with . on something else than the reference parameter', e)
             return '(PFld %s %s)' % (self.p(base), FLD[name])
         self.bad('pointer expression not in the subset', e)
@@ -74,6 +78,10 @@ class Lower:
             return '(BEq %s %s)' % (self.p(e[2]), self.p(e[3]))
         if k == 'bin' and e[1] == '!=':
             return '(BNe %s %s)' % (self.p(e[2]), self.p(e[3]))
+        if k == 'bin' and e[1] in ('&&', '||'):
+            return '(%s %s %s)' % ('BAnd' if e[1] == '&&' else 'BOr', self.b(e[2]), self.b(e[3]))
+        if k == 'id' and e[1] in self.bools:
+            return '(BVar "%s")' % e[1]
         if k in ('bin', 'cond', 'assign', 'comma', 'call'):
             self.bad('condition not in the subset', e)
         return '(BPtr %s)' % self.p(e)
@@ -104,7 +112,24 @@ class Lower:
             if st[1] is None or st[1] == ('un', '*', ('this',)):
                 return 'SReturn'
             self.bad('return with a value', st)
+        if k == 'decl' and st[1] in ('const bool', 'bool'):
+            if self.depth:
+                self.bad('declaration inside an inlined helper', st)
+            out = []
+            for name, init in st[2]:
+                if init is None or name in self.declared or name in ('first', self.param):
+                    self.bad('bool local without initialiser / declared twice', st)
+                val = self.b(init)
+                self.declared[name] = True
+                self.bools.add(name)
+                out.append('(SDeclB "%s" %s)' % (name, val))
+            r = out[-1]
+            for x in reversed(out[:-1]):
+                r = '(SSeq %s %s)' % (x, r)
+            return r
         if k == 'decl':
+            if self.depth:
+                self.bad('declaration inside an inlined helper', st)
             if st[1] != 'auto':
                 self.bad('declaration with a type other than auto', st)
             out = []
@@ -125,6 +150,26 @@ class Lower:
             e = st[1]
             if e[0] == 'call' and e[1] == ('id', 'BOOST_ASSERT') and len(e[2]) == 1:
                 return '(SAssert %s)' % self.b(e[2][0])
+            if e[0] == 'call' and e[1][0] == 'id' and e[1][1] in self.helpers and len(e[2]) == 1:
+                # a call of a `static void helper(T& p)` member: its body, with p standing for the argument object
+                hp, hbody = self.helpers[e[1][1]]
+                arg = e[2][0]
+                if arg == ('id', self.param):
+                    ptr = self.param_ptr
+                elif arg[0] == 'un' and arg[1] == '*':
+                    ptr = self.p(arg[2])
+                else:
+                    self.bad('argument of an inlined helper call', st)
+                if self.depth > 3:
+                    self.bad('helper calls nested too deep', st)
+                sub = Lower(self.fname + '/' + e[1][1], hp, param_ptr=ptr, helpers=self.helpers)
+                sub.locals = set(self.locals)
+                sub.bools = set(self.bools)
+                sub.depth = self.depth + 1
+                body = [x for x in hbody[1] if x != ('return', None)]
+                if len(body) != len(hbody[1]) and hbody[1][-1] != ('return', None):
+                    self.bad('inlined helper returns in the middle', st)
+                return sub.seq(body)
             if e[0] == 'assign' and e[1] == '=':
                 lhs, rhs = e[2], e[3]
                 if lhs == ('id', 'first') and 'first' not in self.locals:
@@ -132,7 +177,7 @@ class Lower:
                 if lhs[0] == 'id' and lhs[1] in self.locals:
                     return '(SSetVar "%s" %s)' % (lhs[1], self.p(rhs))
                 if lhs[0] == 'member' and lhs[2] in FLD:
-                    base = 'PNode' if (not lhs[3] and lhs[1] == ('id', self.param)) else (self.p(lhs[1]) if lhs[3] else None)
+                    base = self.param_ptr if (not lhs[3] and lhs[1] == ('id', self.param)) else (self.p(lhs[1]) if lhs[3] else None)
                     if base is None:
                         self.bad('assignment target', st)
                     return '(SSetFld %s %s %s)' % (base, FLD[lhs[2]], self.p(rhs))
@@ -156,16 +201,22 @@ def main():
         die('cannot read %s: %s' % (SRC, e))
     out = []
     try:
+        helpers = {}
+
         def fn(region, header_re, name, param, prebound=()):
             params, body, line = mc.find_function(region, header_re, name)
             ast = mc.parse_function_body(body)
-            lw = Lower(name, param, prebound)
+            lw = Lower(name, param, prebound, helpers=helpers)
             return lw.s(ast), params.strip()
 
         # the mutators are members of static_list itself: take them from the text outside the nested classes
         outer = src
         for cls in ('static_link', 'iterator', 'const_iterator'):
             outer = outer.replace(class_region(src, cls), '{}')
+        # private helpers `static void name(T& p) {...}`: inlined where they are called
+        for hm in re.finditer(r'\bstatic\s+void\s+(\w+)\s*\(\s*T\s*&\s*(\w+)\s*\)\s*\{', outer):
+            b = hm.end() - 1
+            helpers[hm.group(1)] = (hm.group(2), mc.parse_function_body(outer[b:mc.balanced(outer, b, '{', '}')]))
         for name in ('push_back', 'remove'):
             body, params = fn(outer, r'\bvoid\s+%s\b' % name, name, 'node')
             if not re.fullmatch(r'T\s*&\s*node', params):
@@ -175,6 +226,11 @@ def main():
         if params:
             raise mc.Unsupported('clear: takes parameters now: ' + params)
         out.append('Definition clear_body : stmt :=\n %s.\n' % body)
+        # the local the loop of clear() runs on (the one its condition tests)
+        cm = re.search(r'\(SWhile \(BPtr \(PVar "(\w+)"\)\)', body)
+        if not cm:
+            raise mc.Unsupported('clear: the loop condition is no longer a local pointer')
+        out.append('Definition clear_cursor : string := "%s".\n' % cm.group(1))
 
         # bool empty() const { return !first; }   -> the returned condition
         params, body, _ = mc.find_function(outer, r'\bbool\s+empty\b', 'empty')
